@@ -63,9 +63,15 @@ def pOp (tok : String) : Option Op :=
   match tok.splitOn "," with
   | ["nc", p, d] => do
     let p ← p.toNat?
-    if d == "-" then pure (.nc p none) else
+    if d == "-" then pure (.nc p none false) else
     match ← pVal d with
-    | .str x => pure (.nc p (some x))
+    | .str x => pure (.nc p (some x) false)
+    | _ => none
+  | ["nc", p, d, "m"] => do   -- declared with a metaclass derived from the parent's
+    let p ← p.toNat?
+    if d == "-" then pure (.nc p none true) else
+    match ← pVal d with
+    | .str x => pure (.nc p (some x) true)
     | _ => none
   | ["ni", c] => do pure (.ni (← c.toNat?) true)
   | ["ni", c, "s"] => do pure (.ni (← c.toNat?) false)
